@@ -10,6 +10,9 @@
 ; instances of the lemmas pow2_* (mathhelp/contracts_verif.go), which are proved against the spelled-out definition in
 ; arithdef.smt2. (A defined pow2 would be expanded into a 64-way case split at every occurrence.)
 (declare-fun pow2 (Int) Int)
+; tm(a, b): the product a*b where a function is verified with opaque multiplication (contract flag opaquemul):
+; uninterpreted, known only through lemma instances (the lemmas themselves are proved with ordinary multiplication).
+(declare-fun tm (Int Int) Int)
 (define-fun abs_int ((a Int)) Int (ite (>= a 0) a (- a)))
 ; truncation toward zero of a real (Go's float -> int conversion for values in range)
 (define-fun trunc ((r Real)) Int (ite (>= r 0.0) (to_int r) (- (to_int (- r)))))
